@@ -135,8 +135,8 @@ def sqlCfg (tbl : List (Str × Str)) (dbi : Bool) (str : Bool) : SqlCfg :=
   { deleteBeforeInsert := dbi, metaEnabled := true, enc := if str then b64Enc else id, dec := if str then b64Dec else some,
     serM := serM, deM := deM, serD := serD tbl, deD := deD tbl }
 
-def storeCfg (tbl : List (Str × Str)) (flat : Bool) : StoreCCfg :=
-  { path := "cache".toList, flat := flat, h := fun k => (encChars k).toList, encM := encMS, decM := decMS, serD := serD tbl, deD := deD tbl }
+def storeCfg (tbl : List (Str × Str)) (flat : Bool) (path : Str := "cache".toList) : StoreCCfg :=
+  { path := path, flat := flat, h := fun k => (encChars k).toList, encM := encMS, decM := decMS, serD := serD tbl, deD := deD tbl }
 
 def driverRoot : Path := [['s', 'r', 'v'], ['r', 'o', 'o', 't']]
 
@@ -153,8 +153,10 @@ def runCfg (cfg : String) (tbl : List (Str × Str)) (ops : List CacheOp) : Optio
   | ["sql"] => some (runOut (sqlCOps (sqlCfg tbl true false)) {} ops)
   | ["sqlstr"] => some (runOut (sqlCOps (sqlCfg tbl true true)) {} ops)
   | ["sqldup"] => some (runOut (sqlCOps (sqlCfg tbl false true)) {} ops)
-  | ["scfm"] => some (runOut (storeCOps (storeCfg tbl true) memOps) (storeCInit (storeCfg tbl true) memOps memInit) ops)
-  | ["scnm"] => some (runOut (storeCOps (storeCfg tbl false) memOps) (storeCInit (storeCfg tbl false) memOps memInit) ops)
+  | ["scfm"] => some (runOut (storeCacheOps (storeCfg tbl true) memOps) (storeCacheNew (storeCfg tbl true) memOps memInit) ops)
+  | ["scnm"] => some (runOut (storeCacheOps (storeCfg tbl false) memOps) (storeCacheNew (storeCfg tbl false) memOps memInit) ops)
+  | ["scfm", p] => some (runOut (storeCacheOps (storeCfg tbl true (dch p)) memOps) (storeCacheNew (storeCfg tbl true (dch p)) memOps memInit) ops)
+  | ["scnm", p] => some (runOut (storeCacheOps (storeCfg tbl false (dch p)) memOps) (storeCacheNew (storeCfg tbl false (dch p)) memOps memInit) ops)
   | ["scff"] => some (runOut (storeCOps (storeCfg tbl true) (fileOps driverRoot)) (storeCInit (storeCfg tbl true) (fileOps driverRoot) (fileInit driverRoot)) ops)
   | ["scnf"] => some (runOut (storeCOps (storeCfg tbl false) (fileOps driverRoot)) (storeCInit (storeCfg tbl false) (fileOps driverRoot) (fileInit driverRoot)) ops)
   | ["scfs"] => some (runOut (storeCOps (storeCfg tbl true) specOps) (storeCInit (storeCfg tbl true) specOps []) ops)
